@@ -488,6 +488,9 @@ def Elem.pat? : Elem → Option String
 def Elem.isPat : Elem → Bool
   | .pat _ => true
   | _ => false
+def Elem.isRaw : Elem → Bool
+  | .raw => true
+  | _ => false
 
 /-- the mask range of the default-route entries of one request: `none` = two different ranges
     (`InvalidArgument`), `some none` = no such entry -/
@@ -507,7 +510,7 @@ def pInsertC (acc : Option (List PEntry)) (e : PEntry) : Option (List PEntry) :=
 
 /-- the new contents given to `add_defined_set`, in the shape of a stored set; `none` = a pattern
     did not compile (`InvalidArgument`).  Prefix entries are kept in call order. -/
-def parseElems (env : RegexEnv) (k : SetKind) (elems : List Elem) : Option SetObj :=
+def parseElems0 (env : RegexEnv) (k : SetKind) (elems : List Elem) : Option SetObj :=
   match k with
   | .prefix =>
       let es := elems.filterMap Elem.pfx?
@@ -523,6 +526,18 @@ def parseElems (env : RegexEnv) (k : SetKind) (elems : List Elem) : Option SetOb
   | .ext | .large =>
       let ps := elems.filterMap Elem.pat?
       if ps.all env.valid then some (.strs ps) else none
+
+/-- … and `none` as well when some prefix / neighbor string does not parse: every element is
+    parsed before anything is stored -/
+def parseElems (env : RegexEnv) (k : SetKind) (elems : List Elem) : Option SetObj :=
+  if elems.any Elem.isRaw then none else parseElems0 env k elems
+
+theorem parseElems_some {env : RegexEnv} {k : SetKind} {elems : List Elem} {n : SetObj}
+    (h : parseElems env k elems = some n) : parseElems0 env k elems = some n := by
+  unfold parseElems at h
+  split at h
+  · cases h
+  · exact h
 
 def SetObj.isEmpty : SetObj → Bool
   | .prefix es z z6 => es.isEmpty && z.isNone && z6.isNone
@@ -607,7 +622,7 @@ def removeSingle (acc : List Single) (e : Elem) : List Single :=
 def removePat (acc : List String) (p : String) : List String := acc.filter (fun x => x != p)
 
 /-- the `all = false` arm of `delete_defined_set` on the stored set; `none` = `InvalidArgument` -/
-def SetObj.remove (env : RegexEnv) (k : SetKind) (ex : SetObj) (elems : List Elem) : Option SetObj :=
+def SetObj.remove0 (env : RegexEnv) (k : SetKind) (ex : SetObj) (elems : List Elem) : Option SetObj :=
   match ex with
   | .prefix es z z6 => some (elems.foldl removePfx (.prefix es z z6))
   | .neighbor l => some (.neighbor (elems.foldl removeNbr l))
@@ -620,6 +635,17 @@ def SetObj.remove (env : RegexEnv) (k : SetKind) (ex : SetObj) (elems : List Ele
       match k with
       | .comm => (pats.mapM (parseCommunity env)).map (fun rs => .strs (rs.foldl removePat l))
       | _ => if pats.all env.valid then some (.strs (pats.foldl removePat l)) else none
+
+/-- an element string that does not parse fails the call before the new set is stored -/
+def SetObj.remove (env : RegexEnv) (k : SetKind) (ex : SetObj) (elems : List Elem) : Option SetObj :=
+  if elems.any Elem.isRaw then none else ex.remove0 env k elems
+
+theorem SetObj.remove_some {env : RegexEnv} {k : SetKind} {ex : SetObj} {elems : List Elem} {n : SetObj}
+    (h : ex.remove env k elems = some n) : ex.remove0 env k elems = some n := by
+  unfold SetObj.remove at h
+  split at h
+  · cases h
+  · exact h
 
 def Table.deleteDefinedSet (env : RegexEnv) (t : Table) (k : SetKind) (name : String) (all : Bool) (elems : List Elem) : Table × Res :=
   if setInUse t k name then (t, .inUse)
